@@ -258,8 +258,8 @@ def check_mesh(st, m, cls, out):
     wantbn = T.boundary_vertices()
     if bn != wantbn:
         bad('boundary_nodes', f"boundary_nodes() = {sorted(bn)} expected {sorted(wantbn)}")
-    allv = set(range(int(m.t.max()) + 1 if cls in ORDER2.values() else m.p.shape[1]))    # vertices; the extra geometry nodes of second-order classes are not judged
-    if ((bn | inn) & allv) != allv or (bn & inn):
+    allv = set(range(m.p.shape[1]))    # every node (second-order classes: the geometry nodes too are in exactly one set)
+    if (bn | inn) != allv or (bn & inn):
         bad('nodes-partition', "boundary_nodes and interior_nodes do not partition the vertices")
     if ref['edges'] is not None:
         wantbe = T.boundary_edges()
